@@ -62,7 +62,12 @@ func (c *TCPConn) SetLinger(int) error                    { return nil }
 func (c *TCPConn) SetReadBuffer(int) error                { return nil }
 func (c *TCPConn) SetWriteBuffer(int) error               { return nil }
 func (c *TCPConn) CloseRead() error                       { return nil }
-func (c *TCPConn) CloseWrite() error                      { return nil }
+func (c *TCPConn) CloseWrite() error {
+	if cw, ok := c.Conn.(interface{ CloseWrite() error }); ok {
+		return cw.CloseWrite() // (the harness's client connection knows whether its peer is still there)
+	}
+	return nil
+}
 
 func JoinHostPort(host, port string) string              { return net.JoinHostPort(host, port) }
 func SplitHostPort(hp string) (string, string, error)    { return net.SplitHostPort(hp) }
